@@ -88,7 +88,8 @@ pub struct World {
     pub tag: String,
     pub uniq: u32,
     pub spans: Vec<Slot<Span>>,
-    pub sets: Vec<LocalSpans>,
+    /// `None`: the harness gave its last handle away (pushed by value)
+    pub sets: Vec<Option<LocalSpans>>,
     /// extracted contexts that were Some: (context, index into h.ctxs)
     pub ctxs: Vec<(SpanContext, usize)>,
     pub adapters: Vec<Slot<AdapterObj>>,
@@ -154,6 +155,7 @@ thread_local! {
     static VT: RefCell<Option<(Arc<Case>, usize)>> = const { RefCell::new(None) };
     static NO_YIELD: Cell<bool> = const { Cell::new(false) };
     static LAST_FREE: Cell<usize> = const { Cell::new(usize::MAX) };
+    static IS_COLLECTOR: Cell<bool> = const { Cell::new(false) };
     pub static ACTIVE: Cell<*mut VtCtx> = const { Cell::new(std::ptr::null_mut()) };
 }
 
@@ -169,6 +171,16 @@ fn wall_ns() -> u64 {
 impl Reporter for SinkReporter {
     fn report(&mut self, spans: Vec<SpanRecord>) {
         REPORT_CALLS.fetch_add(1, Ordering::SeqCst);
+        // the reporter belongs to the collector: the background thread, flush()'s helper thread
+        // or (sched engine) the collector vthread. On a program vthread it runs inside a
+        // tracing call of the host.
+        if !IS_COLLECTOR.with(|c| c.get()) {
+            if let Some((case, id)) = VT.try_with(|v| v.borrow().clone()).ok().flatten() {
+                let mut w = case.w();
+                let t = w.tick();
+                w.h.host_cycles.push((id, t, "Reporter::report"));
+            }
+        }
         let cur = CURRENT.lock().unwrap_or_else(|e| e.into_inner()).clone();
         match cur {
             Some(case) => {
@@ -213,6 +225,19 @@ fn hook(site: fastrace::verif::Site) {
     if let Site::BeforePush { free, .. } = site {
         LAST_FREE.with(|f| f.set(free));
     }
+    if matches!(site, Site::BeforeDrain { .. } | Site::RecvEmpty | Site::Received { .. }) && !IS_COLLECTOR.with(|c| c.get()) {
+        // a program vthread is draining the queues: a collector cycle inside a tracing call.
+        // Recorded once per cycle, never a yield point (the real collector vthread may be
+        // waiting for the same locks).
+        if let Site::BeforeDrain { .. } = site {
+            let mut w = case.w();
+            let t = w.tick();
+            if w.h.host_cycles.last().map_or(true, |l| l.0 != id || l.1 + 1 != t) {
+                w.h.host_cycles.push((id, t, "collector cycle (queue drain)"));
+            }
+        }
+        return;
+    }
     if NO_YIELD.with(|n| n.get()) {
         return;
     }
@@ -222,7 +247,7 @@ fn hook(site: fastrace::verif::Site) {
         Site::PushOutcome { ok } => (HookKind::PushOutcome { ok }, None),
         Site::BeforeDrain { ring } => (HookKind::BeforeDrain { ring }, Some("drain")),
         Site::RecvEmpty => (HookKind::RecvEmpty, Some("recv_empty")),
-        Site::Received { kind, ids } => (HookKind::Received { kind, ids, ring: 0 }, None),
+        Site::Received { kind, ids } => (HookKind::Received { kind, ids, ring: 0 }, if case.prog.fine { Some("recv") } else { None }),
     };
     {
         let mut w = case.w();
@@ -261,6 +286,10 @@ pub struct VtCtx {
     pub reentrant_depth: u32,
     /// filler commands pushed by Bulk operations of this vthread (kept below the ring capacity)
     pub bulk_used: usize,
+    /// the next popped guard is dropped by unwinding
+    pub unwind_next_pop: bool,
+    /// the next Event is built well before it is added (timing checks only)
+    pub event_early: bool,
 }
 
 fn payload_str(p: &Box<dyn Any + Send>) -> String {
@@ -275,6 +304,16 @@ fn payload_str(p: &Box<dyn Any + Send>) -> String {
 
 fn sel(i: u16, len: usize) -> usize {
     ((i as usize) * len) >> 16
+}
+
+/// the guard's destructor runs while a panic unwinds through its frame (`thread::panicking()` is
+/// true inside it); the panic is caught right outside and does not pass through the panic hook
+fn drop_by_unwinding<G>(g: G) {
+    struct Deliberate;
+    let _ = catch_unwind(AssertUnwindSafe(move || {
+        let _g = g;
+        std::panic::resume_unwind(Box::new(Deliberate));
+    }));
 }
 
 fn tid(tc: u8, tr: u64, uniq: u32) -> u128 {
@@ -936,16 +975,28 @@ impl VtCtx {
             }
         }
         let g = self.guards.pop().unwrap();
+        let unwind = self.unwind_next_pop;
+        if unwind {
+            self.w().h.label("guard_dropped_by_unwinding");
+        }
         match g {
             Guard::Local(l, li) => {
                 let f0 = self.now();
-                self.guarded("LocalSpan::drop", |_| drop(l));
+                if unwind {
+                    drop_by_unwinding(l);
+                } else {
+                    self.guarded("LocalSpan::drop", |_| drop(l));
+                }
                 let f1 = self.now();
                 self.close_local_model(li, f0, f1);
             }
             Guard::Parent(g, sc) => {
                 let t0 = self.w().tick();
-                self.guarded("LocalParentGuard::drop", |_| drop(g));
+                if unwind {
+                    drop_by_unwinding(g);
+                } else {
+                    self.guarded("LocalParentGuard::drop", |_| drop(g));
+                }
                 if let Some(sc) = sc {
                     self.close_scope_model(sc, t0);
                 }
@@ -992,7 +1043,7 @@ impl VtCtx {
                 t: t1,
                 empty,
             });
-            w.sets.push(set);
+            w.sets.push(Some(set));
             let si = w.h.sets.len() - 1;
             w.h.scopes[sc].set = Some(si);
         } else {
@@ -1000,7 +1051,7 @@ impl VtCtx {
         }
     }
 
-    pub fn op_push_child_spans(&mut self, span_sel: u16, set_sel: u16) {
+    pub fn op_push_child_spans(&mut self, span_sel: u16, set_sel: u16, last: bool) {
         let (idx, si, set) = {
             let mut w = self.w();
             if w.sets.is_empty() {
@@ -1017,9 +1068,24 @@ impl VtCtx {
             if self.excluded_dup(&mut w, d) {
                 return;
             }
-            (idx, si, w.sets[si].clone())
+            // `last`: the set is pushed by value and the harness keeps no clone, so the collector
+            // ends up with the only reference
+            let set = if last { w.sets[si].take() } else { w.sets[si].clone() };
+            let Some(set) = set else {
+                w.h.skipped_ops += 1;
+                return;
+            };
+            if last {
+                w.h.label("push_last_handle");
+            }
+            (idx, si, set)
         };
-        let Some(span) = self.w().spans[idx].take() else { return };
+        let Some(span) = self.w().spans[idx].take() else {
+            if last {
+                self.w().sets[si] = Some(set);
+            }
+            return;
+        };
         let t0 = self.w().tick();
         self.guarded("Span::push_child_spans", |_| span.push_child_spans(set));
         let mut w = self.w();
@@ -1045,7 +1111,11 @@ impl VtCtx {
             }
             let si = sel(set_sel, w.sets.len());
             let u = w.uniq();
-            (si, w.sets[si].clone(), tid(tc, tr, u))
+            let Some(set) = w.sets[si].clone() else {
+                w.h.skipped_ops += 1;
+                return;
+            };
+            (si, set, tid(tc, tr, u))
         };
         let wall0 = wall_ns();
         let recs = self.guarded("LocalSpans::to_span_records", |_| {
@@ -1226,7 +1296,9 @@ impl VtCtx {
         if s.l % 4 == 3 {
             self.add_event_deprecated(handle, name, props, re);
         } else {
+            self.event_early = s.l % 4 == 2 && self.case.opts.brackets;
             self.add_event_named(handle, name, props, re);
+            self.event_early = false;
         }
     }
 
@@ -1325,6 +1397,14 @@ impl VtCtx {
             }
         });
         let Some(ev) = ev else { return };
+        if self.event_early {
+            // an Event value prepared ahead of time: it is recorded when it is added
+            self.w().h.label("event_built_early");
+            let t = fastant::Instant::now();
+            while t.elapsed().as_micros() < 40 {
+                std::hint::spin_loop();
+            }
+        }
         if !props.is_empty() {
             // Event closures are evaluated eagerly when tracing is compiled in; only the disabled
             // build promises laziness.
@@ -1933,6 +2013,19 @@ impl VtCtx {
         self.w().tick();
     }
 
+    pub fn op_volley(&mut self, n: u8) {
+        if self.reentrant_depth > 0 {
+            return;
+        }
+        self.w().h.label("volley");
+        for _ in 0..n {
+            let u = self.w().uniq();
+            if let Some(idx) = self.op_root(tid(1, 0x7011_0000 + u as u64, u), 0, true, 0, StrSeed { c: 0, l: 2 }, None, None) {
+                self.finish_idx(idx);
+            }
+        }
+    }
+
     pub fn op_trace_fn(&mut self, kind: u8) {
         self.w().h.label("trace_fn");
         match kind % 4 {
@@ -2060,14 +2153,16 @@ impl VtCtx {
             Op::SetLocalParent { span, probe } => self.op_set_local_parent(*span, *probe),
             Op::EnterLocal { np, s, probe } => self.op_enter_local(*np, *s, *probe, "op"),
             Op::CollectorStart { probe } => self.op_collector_start(*probe),
-            Op::PopGuard { collect, early } => {
+            Op::PopGuard { collect, early, unwind } => {
                 let had = self.guards.len() > self.floor;
+                self.unwind_next_pop = *unwind;
                 self.op_pop_guard(*collect, *early);
+                self.unwind_next_pop = false;
                 if had && self.case.prog_probes() {
                     self.op_probe();
                 }
             }
-            Op::PushChildSpans { span, set } => self.op_push_child_spans(*span, *set),
+            Op::PushChildSpans { span, set, last } => self.op_push_child_spans(*span, *set, *last),
             Op::ToSpanRecords { set, tc, tr, pr } => self.op_to_span_records(*set, *tc, *tr, *pr),
             Op::AddProps { handle, n, s, re } => self.op_add_props(*handle, *n, *s, re),
             Op::AddEvent { handle, n, s, re } => self.op_add_event(*handle, *n, *s, re),
@@ -2087,6 +2182,7 @@ impl VtCtx {
             Op::DropAdapter { a } => adapters::drop_adapter(self, *a),
             Op::Fill { leave } => self.op_fill(*leave),
             Op::Bulk { n } => self.op_bulk(*n),
+            Op::Volley { n } => self.op_volley(*n),
             Op::Burst { n, kind } => self.op_burst(*n, *kind),
             Op::Nest { n, span } => self.op_nest(*n, *span),
             Op::Churn { k } => self.op_churn(*k),
@@ -2460,6 +2556,8 @@ fn vt_main(case: Arc<Case>, id: usize, n: usize) {
             floor: 0,
             reentrant_depth: 0,
             bulk_used: 0,
+            unwind_next_pop: false,
+            event_early: false,
         };
         if id == reaper {
             reaper_main(&mut cx);
@@ -2515,6 +2613,7 @@ fn reaper_main(cx: &mut VtCtx) {
 }
 
 fn collector_main(case: &Arc<Case>, id: usize) {
+    IS_COLLECTOR.with(|c| c.set(true));
     loop {
         if case.w().collector_stop {
             break;
